@@ -156,6 +156,8 @@ class PeerWorld:
         def change(fsm, state):
             frm = fsm.state
             r = saved['change'](fsm, state)
+            if getattr(world, 'peer', None) is not None and fsm is not world.peer.fsm:
+                return r        # the state machine of a Peer object which was removed and replaced: not this neighbour's session any more
             world.log('fsm', frm=frm.name, to=state.name)
             return r
 
